@@ -55,8 +55,9 @@ Print Assumptions C20_path_found.
 (** ---- round trip: record -> any cassette -> replay ----
     [qp]/[qp_dec]: jsonpickle's coding of bytes inside the stored JSON (model A's oracle).  Premise (wp-audit:
     restated, weaker than before): decoding inverts encoding on BYTE strings (elements < 256).  The earlier premise
-    asked this of every [list N]; the modelled quoted-printable pair does not satisfy that ([256] comes back as [0]),
-    so it was met by artificial codings only.  See NonVacuity.qp_premise_quoted_printable.
+    asked this of every [list N], which [Codec.qp_simple] meets with the decoder [JsonParse.qp_dec_simple] but not
+    with the heap model's [Heap.qp_dec_simple]; only a base64 text and the placeholder travel here, so bytes are
+    all that is needed.  See NonVacuity.qp_premise_quoted_printable.
     [fsize]/[fread]/[writable]: the file system.  The size reported by getsize need not even equal
     the number of bytes read (a file growing in between): whatever was read is what comes back. *)
 
@@ -224,16 +225,16 @@ Module NonVacuity.
   Example qp_premise_identity : forall b, bytes_ok b = true -> qp_id (qp_id b) = b.
   Proof. reflexivity. Qed.
 
-  (** ... and by the modelled quoted-printable pair, which does NOT invert on arbitrary [list N] *)
+  (** ... and by the quoted-printable pair of the heap model (C11), which does NOT invert on arbitrary [list N] *)
   Definition qp_byte_ok (x : N) : bool :=
     match qp_byte x with
     | [c] => negb (c =? 61)%N && (c =? x)%N
     | [e; a; b] => (e =? 61)%N && (unhex a * 16 + unhex b =? x)%N
     | _ => false
     end.
-  Lemma qp_bytes_sweep : forallb qp_byte_ok (map N.of_nat (seq 0 256)) = true.
+  Example qp_bytes_sweep : forallb qp_byte_ok (map N.of_nat (seq 0 256)) = true.
   Proof. vm_compute. reflexivity. Qed.
-  Lemma qp_byte_dec x rest : (x < 256)%N -> qp_dec_simple (qp_byte x ++ rest) = x :: qp_dec_simple rest.
+  Example qp_byte_dec x rest : (x < 256)%N -> Heap.qp_dec_simple (qp_byte x ++ rest) = x :: Heap.qp_dec_simple rest.
   Proof.
     intros L. pose proof qp_bytes_sweep as S. rewrite forallb_forall in S.
     assert (I : In x (map N.of_nat (seq 0 256))).
@@ -245,7 +246,7 @@ Module NonVacuity.
       change (61 =? 61)%N with true. cbv iota. rewrite S2. reflexivity.
   Qed.
   Example qp_premise_quoted_printable :
-    (forall b, bytes_ok b = true -> qp_dec_simple (qp_simple b) = b) /\ qp_dec_simple (qp_simple [256%N]) <> [256%N].
+    (forall b, bytes_ok b = true -> Heap.qp_dec_simple (qp_simple b) = b) /\ Heap.qp_dec_simple (qp_simple [256%N]) <> [256%N].
   Proof.
     split; [|vm_compute; discriminate].
     induction b as [|x b IH]; intros Hb; [reflexivity|].
